@@ -181,7 +181,11 @@ def r17a(ctx):
         # lowered expression, whatever the collection holds
         if len(set(roots)) == 1 and roots[0] != "self":
             ds = [d for d in tdefs.reaching(roots[0], c) if d.value is not None]
-            lowered_everywhere = bool(ds) and all(any(k in ast.unparse(d.value) for k in ("optimize(", "lower_completely(")) or any(k in closure_text(model, fb.module, fb, d.value, depth=1) for k in ("optimize(", "lower_completely(")) for d in ds)
+            def _arms(v):
+                return _arms(v.body) + _arms(v.orelse) if isinstance(v, ast.IfExp) else [v]
+
+            vals = [a_ for d in ds for a_ in _arms(d.value)]
+            lowered_everywhere = bool(vals) and all(any(k in ast.unparse(v) for k in ("optimize(", "lower_completely(")) or any(k in closure_text(model, fb.module, fb, v, depth=1) for k in ("optimize(", "lower_completely(")) for v in vals)
         else:
             lowered_everywhere = False
         (ctx.ok if lowered_everywhere else ctx.bad)(f"_collection.FrameBase.to_legacy_dataframe:lowered#{i}", fb.module.loc(c), "name, meta and divisions come from the lowered / optimized expression on every path" if lowered_everywhere else f"on some path `{roots[0]}` is the collection as built: its graph (`.dask`) is generated from the lowered expression but name and divisions describe the un-lowered one - the legacy collection asks for keys its graph does not define")
